@@ -653,7 +653,11 @@ func Main(run *hx.Run) {
 		})
 	}
 	histories(run, &lim)
-	for _, sc := range SizeCases(run.Thorough()) {
+	all := SizeCases(run.Thorough())
+	all = append(all, BucketCases()...)                        // heads / terminals on one probe path of the 31-slot (and 67-slot) table
+	all = append(all, ShapeCases(run.Thorough())...)           // each transformation's special shapes at the sweep sizes
+	all = append(all, DenseCases(run.Seed, run.Thorough())...) // every size from 0 to 200 of the cheap dimensions
+	for _, sc := range all {
 		// threshold sweeps: one dimension at 63 / 64 / 65 (thorough: up to 257), everything else small
 		for _, op := range sc.Ops {
 			c := caseFor(sc.G, sc.Mix, op, 0)
